@@ -5,10 +5,12 @@ import (
 	"fmt"
 	"testing"
 
+	modbus "github.com/aldas/go-modbus-client"
 	"github.com/aldas/go-modbus-client/packet"
 	"pgregory.net/rapid"
 
 	"verif/internal/cat"
+	"verif/internal/fgen"
 	"verif/internal/gen"
 	"verif/internal/harness"
 	"verif/internal/spec"
@@ -27,6 +29,8 @@ type accCase struct {
 	// Before: accesses made on the same view first (their results are not judged): the value of Access is determined by the
 	// wire bytes alone, so it must not depend on what was read earlier
 	Before []spec.Access `json:"before,omitempty"`
+	// BeforeFields: fields extracted from the same view first through Field.ExtractFrom (results not judged either)
+	BeforeFields []modbus.Field `json:"before_fields,omitempty"`
 }
 
 func view(c accCase) (*packet.Registers, []byte, error) {
@@ -67,6 +71,9 @@ func runAcc(c accCase) harness.Result {
 		for _, b := range c.Before {
 			_, _ = cat.CallAccess(regs, b)
 		}
+		for i := range c.BeforeFields {
+			_, _ = c.BeforeFields[i].ExtractFrom(regs)
+		}
 		got, gerr = cat.CallAccess(regs, c.Access)
 	}()
 	a := c.Access
@@ -87,6 +94,10 @@ func runAcc(c accCase) harness.Result {
 		}
 	}
 	labels := []string{"pos:" + pos, "kind:" + a.Kind}
+	if len(c.BeforeFields) > 0 {
+		labels = append(labels, "after-field-extraction")
+		desc += fmt.Sprintf(" after Field.ExtractFrom of %d fields on the same view (first: type %d addr %d order %d)", len(c.BeforeFields), c.BeforeFields[0].Type, c.BeforeFields[0].Address, c.BeforeFields[0].ByteOrder)
+	}
 	if len(c.Before) > 0 {
 		labels = append(labels, "after-earlier-reads")
 		desc += fmt.Sprintf(" after %d earlier reads on the same view (first: %s addr=%d len=%d order=%d)", len(c.Before), c.Before[0].Kind, c.Before[0].Addr, c.Before[0].Length, c.Before[0].Order)
@@ -183,6 +194,11 @@ func genAcc(t *rapid.T) accCase {
 				b.Length = rapid.IntRange(1, 2*(start+count-b.Addr)).Draw(t, "before_len")
 			}
 			c.Before = append(c.Before, b)
+		}
+	}
+	if rapid.IntRange(0, 5).Draw(t, "earlier_fields") == 0 {
+		for i, n := 0, rapid.IntRange(1, 3).Draw(t, "n_fields"); i < n; i++ {
+			c.BeforeFields = append(c.BeforeFields, fgen.RegisterField(t, "bf", start, start+count))
 		}
 	}
 	c.Access = genAccess(t, start, count)
